@@ -40,7 +40,7 @@ COMPONENTS = {'real': ['pedal.core.feedback', 'pedal.core.report', 'pedal.core.f
 ZOO_SOURCE = '''
 from pedal.core.feedback import Feedback, FeedbackResponse, FeedbackGroup
 from pedal.core.formatting import Formatter, HtmlFormatter, TextFormatter
-from pedal.core.commands import gently, explain, compliment, give_partial, guidance, set_correct, system_error
+from pedal.core.commands import gently, explain, compliment, give_partial, guidance, set_correct, system_error, log, debug
 
 class cond_fb(Feedback):
     title = "Conditional"
@@ -153,9 +153,22 @@ def build(seed, tier):
     for i in range(r.randint(5, 30 if tier == 'thorough' else 18)):
         c = r.random()
         if c < 0.62:
-            cls = r.choice(ZOO_CLASSES + ['gently', 'explain', 'compliment', 'give_partial', 'guidance', 'set_correct', 'system_error', 'Feedback'])
+            cls = r.choice(ZOO_CLASSES + ['gently', 'explain', 'compliment', 'give_partial', 'guidance', 'set_correct', 'system_error', 'Feedback',
+                                          'log', 'debug'])
             op = {'op': 'make', 'cls': cls, 'kw': {}}
             kw = op['kw']
+            if cls in ('log', 'debug'):
+                # logging commands: the item is the message; they return nothing, the object is found in the report
+                op['pos'] = [repr('note %d' % i)]
+                if r.random() < 0.5:
+                    kw['value'] = r.choice(VALUES)
+                if r.random() < 0.2:
+                    kw['report'] = '@second'
+                if r.random() < 0.2:
+                    kw['activate'] = r.choice(['False', 'True'])
+                made += 1
+                ops.append(op)
+                continue
             if cls in ('cond_fb', 'child_fb', 'grandchild_fb', 'msg_fb', 'else_fb', 'attr_fb'):
                 op['outcome'] = r.choice(OUTCOMES)
             if cls in ('gently', 'explain', 'compliment', 'guidance'):
@@ -322,6 +335,7 @@ def execute(spec):
                         else:
                             kw[k] = eval(v, ns)
                     pos = [eval(x, ns) for x in op.get('pos', [])]
+                    given_fields_copy = dict(kw['fields']) if isinstance(kw.get('fields'), dict) else None
                     if 'outcome' in op:
                         pos = [eval(op['outcome'], ns)] + pos
                     cls = ns[op['cls']]
@@ -359,8 +373,8 @@ def execute(spec):
                     target[3] = False
                 new_f = [x for x in rep.feedback if id(x) not in before_f]
                 new_i = [x for x in rep.ignored_feedback if id(x) not in before_i]
-                if obj is None and raised is not None:
-                    # the constructor raised: find the object it recorded (if any)
+                if obj is None and kind == 'make':
+                    # the constructor raised, or the command returns nothing (log, debug): find the object it recorded
                     cand = new_f + new_i
                     obj = cand[-1] if cand else None
                 o['raised'] = None if raised is None else {'cls': type(raised).__name__, 'str': safe_str(raised)[:80]}
@@ -388,17 +402,37 @@ def execute(spec):
                     # ---- what the model expects for the message (from the constructing op's keywords)
                     mk = op if kind == 'make' else mop
                     mkw = mk.get('kw', {})
+                    # the fields as the caller gave them (not as pedal merged them): fields= dictionary, the class's
+                    # constants over it, keyword fields over both; a declared field name that was not given is None
+                    exp_fields = None
+                    if kind == 'make':
+                        given = kw.get('fields')
+                        exp_fields = dict(given_fields_copy) if given_fields_copy is not None else {}
+                        cf = type(obj).constant_fields
+                        if isinstance(cf, dict):
+                            exp_fields.update(cf)
+                        for fname in (kw.get('field_names') or []):
+                            if fname not in kw and fname not in exp_fields:
+                                exp_fields[fname] = None
+                        for fname in ('value', 'who', 'where'):
+                            if fname in kw:
+                                exp_fields[fname] = kw[fname]
+                        obj._verif_exp_fields = exp_fields
+                    else:
+                        exp_fields = getattr(obj, '_verif_exp_fields', None)
+                    if exp_fields is None:
+                        exp_fields = obj.fields
                     try:
                         if isinstance(obj, ns['msg_fb']):
-                            exp = 'dynamic ' + str(obj.fields.get('value'))
+                            exp = 'dynamic ' + str(exp_fields.get('value'))
                         elif 'message' in mkw:
                             exp = eval(mkw['message'])
-                        elif mk.get('pos') and mk['cls'] in ('gently', 'explain', 'compliment', 'guidance'):
+                        elif mk.get('pos') and mk['cls'] in ('gently', 'explain', 'compliment', 'guidance', 'log', 'debug'):
                             exp = eval(mk['pos'][0])
                         elif type(obj).message is not None:
                             exp = type(obj).message
                         elif obj.message_template is not None:
-                            exp = model_render(obj.message_template, obj.fields, rep.format)
+                            exp = model_render(obj.message_template, exp_fields, rep.format)
                         else:
                             exp = obj.DEFAULT_FEEDBACK_MESSAGE
                         o['model_message'] = exp
@@ -410,7 +444,7 @@ def execute(spec):
                         if not isinstance(tpl, str):
                             return None
                         try:
-                            model_render(tpl, obj.fields, rep.format)
+                            model_render(tpl, exp_fields, rep.format)
                         except BaseException as e:
                             return type(e).__name__
                         return None
@@ -431,7 +465,7 @@ def execute(spec):
                     for t in tpls:
                         if isinstance(t, str):
                             try:
-                                model_render(t, obj.fields, rep.format)
+                                model_render(t, exp_fields, rep.format)
                             except BaseException as e:
                                 o['model_template_error'] = type(e).__name__
                 else:
